@@ -1,6 +1,7 @@
 package govc
 
 import (
+	"fmt"
 	"go/token"
 	"go/types"
 	"math/big"
@@ -273,23 +274,45 @@ func init() {
 		e.work(st, e.slLen(buf))
 		return &Val{Tup: []*Val{{T: e.slLen(buf)}, {T: c.LitU(0, IfaceW)}}}
 	})
-	// sort.Strings / sort.Slice: the slice content is permuted in place (modelled as: elements inside the slice's
-	// window become unknown, everything else is unchanged; sortedness itself is not used by any contract)
-	permute := func(e *Enc, st *State, sl *smt.Term, elem types.Type) {
+	// sort.Strings: the window of the slice is replaced by a sorted permutation of itself. The permutation is a
+	// bijection of the window's positions given by two fresh uninterpreted functions (perm, its inverse); "sorted"
+	// is stated with the uninterpreted total preorder str_le on strings (antisymmetric: the byte order of Go strings
+	// is a total order, so two strings that are <= each other are equal). Everything outside the window is unchanged.
+	reg("sort.Strings", func(e *Enc, fr *Frame, st *State, a []*Val, at []types.Type, pos token.Pos) *Val {
 		c := e.C
-		for hn, hs := range e.heapsOfType(elem) {
+		sl := a[0].T
+		e.sortSeq++
+		perm := fmt.Sprintf("sortperm!%d", e.sortSeq)
+		inv := fmt.Sprintf("sortinv!%d", e.sortSeq)
+		ln, off := e.slLen(sl), e.slOff(sl)
+		for hn, hs := range e.heapsOfType(types.Typ[types.String]) {
 			h := e.heap(st, hn, hs)
 			old := c.Select(h, e.slObj(sl))
 			nr := c.Fresh("sorted:"+hn, hs.Elem)
 			i := c.BoundVar("i", smt.BV(64))
-			inr := c.And(c.Cmp("bvuge", i, e.slOff(sl)), c.Cmp("bvult", c.BVOp("bvsub", i, e.slOff(sl)), e.slLen(sl)))
+			j := c.BoundVar("j", smt.BV(64))
+			inr := c.And(c.Cmp("bvuge", i, off), c.Cmp("bvult", c.BVOp("bvsub", i, off), ln))
 			e.assume(st, c.Forall([]*smt.Term{i}, c.Implies(c.Not(inr), c.Eq(c.Select(nr, i), c.Select(old, i)))))
+			// positions are window-relative: 0 <= i < len
+			in := func(x *smt.Term) *smt.Term { return c.Cmp("bvult", x, ln) }
+			at := func(arr, x *smt.Term) *smt.Term { return c.Select(arr, c.BVOp("bvadd", off, x)) }
+			pi := c.App(perm, smt.BV(64), i)
+			e.assume(st, c.Forall([]*smt.Term{i}, c.Implies(in(i), c.And(in(pi), c.Eq(c.App(inv, smt.BV(64), pi), i), c.Eq(at(nr, i), at(old, pi))))))
+			ii := c.App(inv, smt.BV(64), i)
+			e.assume(st, c.Forall([]*smt.Term{i}, c.Implies(in(i), c.And(in(ii), c.Eq(c.App(perm, smt.BV(64), ii), i)))))
+			e.assume(st, c.Forall([]*smt.Term{i, j}, c.Implies(c.And(in(j), c.Cmp("bvule", i, j)), c.App("str_le", smt.Bool, at(nr, i), at(nr, j)))))
+			// consequence of "nr is a permutation of old" stated outright (the solvers do not find the two-step
+			// instantiation through perm / inv): pairwise distinct before implies pairwise distinct after
+			distinct := func(arr *smt.Term) *smt.Term {
+				return c.Forall([]*smt.Term{i, j}, c.Implies(c.And(c.Cmp("bvult", i, j), in(j)), c.Ne(at(arr, i), at(arr, j))))
+			}
+			e.assume(st, c.Implies(distinct(old), distinct(nr)))
 			e.setHeap(st, hn, c.Store(h, e.slObj(sl), nr))
 		}
-		e.work(st, e.slLen(sl))
-	}
-	reg("sort.Strings", func(e *Enc, fr *Frame, st *State, a []*Val, at []types.Type, pos token.Pos) *Val {
-		permute(e, st, a[0].T, types.Typ[types.String])
+		x := c.BoundVar("x", smt.BV(StrW))
+		y := c.BoundVar("y", smt.BV(StrW))
+		e.addAxiomOnce("str_le-antisymmetric", c.Forall([]*smt.Term{x, y}, c.Implies(c.And(c.App("str_le", smt.Bool, x, y), c.App("str_le", smt.Bool, y, x)), c.Eq(x, y))))
+		e.work(st, ln)
 		return &Val{}
 	})
 	// atomic.Bool
